@@ -33,7 +33,8 @@ REAL = {
 }
 UNKNOWN_MODULES = ["nomodule", "qartodx", "ncei"]
 UNKNOWN_TESTS = ["no_such_test", "gross_range", "spike_test2"]
-STREAMS = ["v1", "temp", "salinity", "sea_water_temperature", "z", "pressure"]
+STREAMS = ["v1", "temp", "salinity", "sea_water_temperature", "z", "pressure", "y", "no", "on"]
+YAML11_WORDS = {"y", "n", "yes", "no", "on", "off", "true", "false", "~", "null"}       # not strings under YAML 1.1
 LAYOUTS = ["contexts", "streams", "bare_streams", "bare_module"]
 CARRIERS = ["dict", "odict", "yaml", "json", "stringio_yaml", "stringio_json", "path_str", "path_obj",
             "xr_global", "xr_vars"]
@@ -218,6 +219,12 @@ def styled(text, style, yaml):
         return "\n\n" + text + "\n\n"
     if style == "comment" and yaml:
         return "# written by the deployment tool\n---\n" + text
+    if style == "yaml11" and yaml:
+        # a document that declares YAML 1.1 (what PyYAML-based tools write): read by its own rules, and without any
+        # effect on the documents loaded after it
+        import re
+        if not any(w.lower() in YAML11_WORDS for w in re.findall(r"[A-Za-z~]+", text)):
+            return "%YAML 1.1\n---\n" + text
     return text
 
 
@@ -296,7 +303,8 @@ def canon_calls(cfg):
             reg = [sort_tree(tree(mapping(g))) for g in c.region.geoms]
         if c.args != ((),):
             raise AssertionError(f"unexpected positional arguments {c.args!r}")
-        out.append([c.stream_id, c.module, c.method, tree(dict(c.kwargs)), tree(c.window.starting),
+        sid = c.stream_id if isinstance(c.stream_id, str) else f"<{type(c.stream_id).__name__} {c.stream_id!r}>"
+        out.append([sid, c.module, c.method, tree(dict(c.kwargs)), tree(c.window.starting),
                     tree(c.window.ending), reg])
     return out
 
@@ -584,7 +592,7 @@ def cases_of_W(W, rng, wid, carriers=None):
             if carrier in ("path_str", "path_obj", "xr_global"):
                 case["flavour"] = rng.choice(["yaml", "json"])
             if carrier not in ("dict", "odict"):
-                case["style"] = rng.choice([None, None, "indent", "blank", "comment"])
+                case["style"] = rng.choice([None, None, "indent", "blank", "comment", "yaml11"])
             case["deviation"] = deviation_of(case)
             out.append(case)
     if xr_vars_applicable(W) and (carriers is None or "xr_vars" in carriers):
